@@ -25,8 +25,10 @@ JOBS = int(os.environ.get("SELFTEST_JOBS", "3"))
 
 
 def env_for(k):
+    # VERIF_NOBUILD: the engine is built once before the corpus runs (main); an edit of govc/*.go while the
+    # corpus runs must not change the engine half-way
     return dict(os.environ, GOFLAGS="-mod=mod", GOPROXY="off", GOSUMDB="off", GOTOOLCHAIN="local",
-                VERIF_REPO="%s/repo%d" % (BASE, k), VERIF_OUT="%s/out%d" % (BASE, k))
+                VERIF_REPO="%s/repo%d" % (BASE, k), VERIF_OUT="%s/out%d" % (BASE, k), VERIF_NOBUILD="1")
 
 
 def sh(cmd, cwd=None, env=None):
@@ -113,6 +115,10 @@ def main():
     # that /repo can be edited while the (long) run is in progress
     sh("rsync -a --exclude .git /repo/ %s/src/" % BASE)
     SRC = BASE + "/src"
+    rc, out = sh("cd %s/govc && go build -o ../bin/govc ." % HERE, env=dict(os.environ, GOFLAGS="-mod=mod", GOPROXY="off", GOSUMDB="off", GOTOOLCHAIN="local"))
+    if rc != 0:
+        print("cannot build govc:\n" + out)
+        sys.exit(2)
     cs = cases(sys.argv[1:])
     q = queue.Queue()
     for c in cs:
